@@ -52,6 +52,12 @@ fn main() -> ExitCode {
         }
     };
 
+    // Verification hook: report the option values the command line was translated to
+    #[cfg(feature = "verif")]
+    if let Some(path) = std::env::var_os("OXIPNG_VERIF_DUMP") {
+        let _ = std::fs::write(path, format!("{out_file:?}\n{out_dir:?}\n{opts:?}\n"));
+    }
+
     let files = collect_files(
         #[cfg(windows)]
         matches
